@@ -34,10 +34,10 @@ func init() {
 		// catch starts depends on the instant of the cancellation, so neither the outcome nor the model's prediction is fixed)
 	)
 	sessFamilies = append(sessFamilies,
-		// closures of one text calling each other (repo fix 15db210), counters, around failures
+		// closures of one text calling each other (repo fix 0558004), counters, around failures
 		[]string{`ad = func(n) { func(f) { if f == nil { n } else { n + f(nil) } } }; a1 = ad(1); a2 = ad(2)`, `a1(a2)`, `a2(a1) + ctr()`,
 			`cons = func(h, t) { func() { if t == nil { [h] } else { [h] + t() } } }; l = cons(1, cons(2, nil)); l()`, `a1(a2) + len(l())`},
-		// element deletion of an outer map from a function (9607a64), containers stored in large containers (5b056c2, 9255529)
+		// element deletion of an outer map from a function (908cebf), containers stored in large containers (95497ec, 11369d7)
 		[]string{`dm = func(k) { del(m[k]) }; dm("a")`, `m`, `big = 0:12; big[0] = big; len(big[0])`, `q = big + [big]; p = big + 1; [len(q), len(p), q[12] == big]`,
 			`bm = {1: 1, 2: 2, 3: 3, 4: 4, 5: 5}; bm[bm] = 1; len(bm)`, `dm("b"); m`},
 	)
